@@ -7,9 +7,13 @@ import (
 	"go/types"
 	"sort"
 	"strings"
+	"time"
 
 	"golang.org/x/tools/go/ssa"
 )
+
+// genBudget is raised when generating the obligations of one function takes too long or grows too large
+type genBudget struct{ msg string }
 
 // ---------------------------------------------------------------------------
 // Symbolic values
@@ -134,6 +138,10 @@ type vc struct {
 	topFrame          *frame
 	callOrd           map[string]int
 	nameOverride      string
+	nInlined          int
+	callRes           map[string]Val
+	callResOrd        map[string]int
+	t0                time.Time
 	reach             []*obligation // soft reachability canaries (one per block of the top-level function)
 }
 
@@ -208,6 +216,8 @@ func (x *vc) typeInv(term string, t types.Type, st *state) string {
 			inv = and(inv, implies(not(eq(app("itag", term), "0")), not(eq(app("ival", term), "0"))))
 		}
 		return inv
+	case sRV:
+		return rvInv(term)
 	case sInt:
 		switch t.Underlying().(type) {
 		case *types.Pointer, *types.Map:
